@@ -73,12 +73,13 @@ Proof.
 Qed.
 
 Theorem ops_canonical_exact top_only db p q keys slices :
-  has_shadow p = false -> pred_quote p = false -> compile current p = Ok q -> guard_db p db ->
+  has_shadow p = false -> compile current p = Ok q -> guard_db p db ->
   run_ops current top_only db (OQuery p :: order_ops keys ++ slice_ops slices) =
   Ok (spec_slices top_only (ordered keys (filter (eval p) db)) slices, keys).
 Proof.
-  intros Hsh Hqt Hq G.
-  assert (Hqb : quote_bad current p = false) by (unfold quote_bad; rewrite Hqt; apply andb_false_r).
+  intros Hsh Hq G.
+  assert (Hqb : quote_bad current p = false) by reflexivity.
   rewrite (run_ops_canonical current top_only db p q keys slices Hsh Hqb Hq).
   rewrite (pipeline_exact p q db top_only keys slices Hq G). reflexivity.
 Qed.
+
